@@ -235,5 +235,24 @@ def one_impl(facts, rep, ty, path):
             else:
                 ok = False
         want_kind = {"&mut T": "deref", "alloc::boxed::Box<T>": "deref", "std::io::stdio::Stdout": "lock", "std::io::stdio::Stderr": "lock"}.get(ty, "ansi")
+        if ok and kind == "deref" and want_kind == "ansi":
+            # delegation to another impl of the trait on (a coercion of) self is the ANSI fallback when that impl is: followed through
+            # the resolved callee, without cycles
+            seen, cur = {path}, e
+            for _ in range(3):
+                target = cur.get("resolved") or ""
+                if not target.endswith("WinconStream>::write_colored") or target in seen:
+                    break
+                seen.add(target)
+                tb = facts.body("anstyle_wincon", target)
+                te = ac.single_expr(tb["hir"])
+                if te.get("k") == "call" and (hir.callee(te) == F or hir.is_call(te, F)) and hir.is_local(hir.simp(te["args"][0]), "self") \
+                        and [hir.local_name(a) for a in te["args"][1:]] == ["fg", "bg", "data"]:
+                    kind = "ansi"
+                    break
+                if not (te.get("k") == "call" and hir.callee_decl(te) == "anstyle_wincon::stream::WinconStream::write_colored"
+                        and hir.is_local(hir.peel(hir.simp(te["args"][0])), "self")):
+                    break
+                cur = te
         rep.check(ok and kind == want_kind, "impls", path, ty.replace(" ", "_"),
                   f"a single delegation ({want_kind}) passing (fg, bg, data) positionally; found {kind}: {hirpp.expr(e)[:100]}", loc(b))
